@@ -40,6 +40,8 @@ inductive Ev where
   | mkInverse (id : Nat)     -- an `InverseOperator` is created
   | applyInverse (id : Nat)  -- … and applied: which configuration does it use?
   | read                     -- `Config.instance()`
+  | mkConfig (id : Nat) (kw : Kw)  -- `c = Config(**kw)` built now (its settings are computed NOW), entered later
+  | enterObj (id : Nat)      -- `with c:` entered
   deriving DecidableEq, Repr, Inhabited
 
 /-- the state of one context: current value, tokens of the open blocks (innermost first), and the
@@ -48,6 +50,7 @@ structure State where
   cur : Cfg := default
   tokens : List Cfg := []
   inverses : List (Nat × Cfg) := []
+  objects : List (Nat × Cfg) := []   -- `Config` objects built ahead of time: the settings they will install
   deriving DecidableEq, Repr, Inhabited
 
 /-- what an event lets the program observe -/
@@ -56,6 +59,7 @@ inductive Obs where
   | cfg (c : Cfg)
   | unknownInverse
   | unbalancedExit
+  | unknownConfig
   deriving DecidableEq, Repr, Inhabited
 
 def step (s : State) : Ev → State × Obs
@@ -70,6 +74,12 @@ def step (s : State) : Ev → State × Obs
     | some c => (s, .cfg c)
     | none => (s, .unknownInverse)
   | .read => (s, .cfg s.cur)
+  | .mkConfig id kw => ({ s with objects := (id, override s.cur kw) :: s.objects }, .none)
+  | .enterObj id =>
+    -- `__enter__` installs the settings computed when the object was built and remembers what was active
+    match s.objects.lookup id with
+    | some inst => ({ s with cur := inst, tokens := s.cur :: s.tokens }, .cfg inst)
+    | none => ({ s with tokens := s.cur :: s.tokens }, .unknownConfig)   -- cannot happen in Python
 
 def run (s : State) (evs : List Ev) : State := evs.foldl (fun st e => (step st e).1) s
 
